@@ -433,7 +433,7 @@ func scriptClass(s []c05Mut) string {
 }
 
 func init() {
-	register("C05", "exploration", func(r *ev.Run) {
+	registerChild("C05", "exploration", "plain", func(r *ev.Run) {
 		registerScriptedRealClock()
 		rng := r.Rng("c05")
 		log := slog.New(slog.DiscardHandler)
